@@ -169,6 +169,7 @@ class IrfKernelsAllSizes(Contract):
     functions = ("glotaran.builtin.megacomplexes.decay.decay_matrix_gaussian_irf:calculate_decay_matrix_gaussian_irf",)
     strength = "U"
     trusted = (
+        *__import__('contracts.unbounded', fromlist=['WP_ASSUMPTIONS']).WP_ASSUMPTIONS,
         "numba compiles the kernels with Python semantics; nb.prange = range (race freedom: C10 PrangeRaces); a[i] of an n-d array is a view sharing its cells",
         "exp / erf / erfcx uninterpreted; floats as reals (SQRT2, 0.5, 0.001 are the exact rationals of the code's floats)",
         "the two shapes of the closed form agree for all alpha, beta (proved by C05.ClosedFormBranchLemma in the same check); its instances at the cells are assumed as axioms, so the position of the numerical switch-over (`thresh < -1`) is immaterial to the proof",
